@@ -24,18 +24,38 @@ of one combinator pipeline, or a push loop in a helper makes no difference.
                           package.toml; normalize_path per-component effects (for loop or fold/for_each closure):
                           CurDir -> nothing, ParentDir -> pop, Normal / RootDir -> push
   R6 written              the normalised descriptor is what is written to <destination>/package.toml (`?`)
+Deepening round (what the value algebra alone does not see, and the bodies that carry the data):
+  R2 list-untouched       no dependency list / descriptor on the construction path is mutably borrowed except to append
+                          (dedup / sort / retain / truncate after collect change number or order without an assignment)
+  R3 elements-untouched   no single dependency / URI is modified in place (`uri.normalize()` on the "verbatim" clone)
+  R3 pass2/base-dir, own-path   exact arguments of absolutize_path: parent(<source package.toml>) itself and the whole URI path
+  R4 whole-fields         fields assigned after construction count (`d.platform = ..`); piecewise assignments are refused
+  R5 every-component      normalize_path visits path.components() completely (no break / early return / stopping adapter)
+  R5 by-kind-only         push / pop are decided by the component kind alone (no file-system or state dependent guard)
+  R7 carriers             TryFrom<PathBuf|&str> for PackageDescriptorDependency, the serialiser / deserialiser of the `uri`
+                          fields and the serde names: the URI is parse(<argument>), the string written is the URI itself,
+                          formatting is plain Display, nothing is modified through a mutable borrow
 Not decided: that the resulting string denotes the same file (URI escaping by uriparse), "parses again".
 """
+import re
+
 from .lib.discard import result_fates, verdict
-from .lib.effects import Effects, guards_of
+from .lib import iters
+from .lib.effects import Effects, find_loops, guards_of
 from .lib.paths import strip
 from .lib.value import canon, vstr, walk
-from .C14_helpers import Cases, NEG, Normal, POS, chain_of, mentions, shape_sig, shape_vals
+from .C14_helpers import Cases, NEG, Normal, POS, adapters, carried, chain_of, fmt_not_plain, loop_total, mentions, mut_borrows, piecewise_updates, settle, shape_sig, shape_vals, unwrapped
 
 PD = 'libcnb_package::package_descriptor::'
 UTIL = 'libcnb_package::util::'
 # the two passes over the dependency list, under the names the rule instances have always carried
 PASSES = ('replace_libcnb_uris', 'absolutize_dependency_paths')
+DATA = 'libcnb_data::package_descriptor::'
+# a dependency list / a descriptor (by value, by reference, inside the Result / Option of a fallible construction)
+DEP_LIST_TY = re.compile(r"^(&(?:'\w+ )?(?:mut )?)*((std|core)::(result::Result|option::Option)<)?((std|alloc)::vec::Vec<|\[|(std|alloc)::boxed::Box<\[)?"
+                         r"libcnb_data::package_descriptor::PackageDescriptor(Dependency)?\b")
+ELEM_TY = re.compile(r"^(&(?:'\w+ )?(?:mut )?)*(libcnb_data::package_descriptor::PackageDescriptorDependency|uriparse::URIReference|uriparse::uri_reference::URIReference)\b")
+APPEND_ONLY = ('push', 'reserve', 'reserve_exact', 'shrink_to_fit')
 
 
 def is_param(v, fn, i):
@@ -71,7 +91,8 @@ def show(cases):
 def run(ctx, rep):
     prog, sl = ctx.prog, ctx.slicer
     for r, d in (('R1', 'libcnb: URIs replaced by the looked-up path or an error'), ('R2', 'dependency list mapped one-to-one, in order'),
-                 ('R3', 'other URIs copied verbatim'), ('R4', 'buildpack and platform taken from the input'), ('R5', 'lexical absolutisation shape'), ('R6', 'normalised descriptor is written')):
+                 ('R3', 'other URIs copied verbatim'), ('R4', 'buildpack and platform taken from the input'), ('R5', 'lexical absolutisation shape'), ('R6', 'normalised descriptor is written'),
+                 ('R7', 'URIs and platform are carried unchanged into and out of the descriptor types')):
         rep.rule(r, d)
     rep.not_decided = ['denotation of the normalised path string (URI escaping by uriparse)', 'that the written file parses again (toml)']
     w = lambda f: '%s:%d' % (f.file, f.line)
@@ -85,7 +106,7 @@ def run(ctx, rep):
     npd = prog.fn(NPD)
     rep.analysed(npd)
     N = Normal(prog, sl, keep=(IDF, AP, UTIL + 'normalize_path'))
-    bv = strip(N.payload(npd))
+    bv = settle(N.payload(npd))   # (field assignments made after the construction of the descriptor count)
     fl = dict(bv[3]) if bv[0] == 'agg' and (bv[1] or '').endswith('PackageDescriptor') else {}
     chain, source = chain_of(prog, sl, N, npd, fl['dependencies']) if 'dependencies' in fl else ([], ('unknown',))
     for gp in N.entered:
@@ -111,6 +132,58 @@ def run(ctx, rep):
                   '%s does not map the dependency list one-to-one: %s' % (name, why))
         rep.check(fields_ok and seq is not None and seq.kind is not None, 'R4', name, w(npd),
                   'buildpack and platform copied from the input, dependencies = mapped list', '%s does not preserve buildpack/platform' % name)
+    # ... and the lists are not modified in place on the way (the value algebra above follows what is *assigned*; a
+    # `dependencies.dedup()` / `.sort_by_key(..)` / `.truncate(..)` / `.retain(..)` through a mutable borrow changes number or
+    # order without any assignment).  In every function that takes part in building the result (the entry point, the helpers
+    # the normal form went through, their closures) a dependency list / descriptor may only be borrowed mutably to append to it.
+    build_fns = {npd.path: npd}
+    for gp in N.entered:
+        build_fns[gp] = prog.fns[gp]
+    # (and whatever else of this crate the entry point can reach: the element mappings and their helpers)
+    for gp, g in prog.reach([npd], stop=lambda f: f.crate != npd.crate).items():
+        if g.crate == npd.crate:
+            build_fns[gp] = g
+    for g in list(build_fns.values()):
+        for c in prog.closures_of(g):
+            build_fns[c.path] = c
+    touched, opaque, elems = [], [], []
+    for g in build_fns.values():
+        for pl, c in mut_borrows(g):
+            if ELEM_TY.match(g.local_ty(pl[0]) or ''):
+                # a single dependency / URI modified in place (`dependency.uri.normalize()`): the value algebra would
+                # still read it as the clone of the input it was made from
+                elems.append('%s in %s' % ((((c.name or c.decl) if c is not None else None) or 'a stored mutable borrow').rsplit('::', 1)[-1], g.path.split('::', 1)[-1]))
+                continue
+            if not DEP_LIST_TY.match(g.local_ty(pl[0]) or ''):
+                continue
+            name = ((c.name or c.decl) if c is not None else None) or ''
+            last = name.rsplit('::', 1)[-1]
+            if name.startswith('std::vec::Vec::<') and last in APPEND_ONLY:
+                continue
+            what = '%s in %s' % (last or 'a stored mutable borrow', g.path.split('::', 1)[-1])
+            (touched if name.startswith(('std::vec::Vec::<', 'std::slice::<impl [T]>::', 'core::slice::<impl [T]>::', 'alloc::')) else opaque).append(what)
+    if opaque and not touched:
+        rep.unproven('R2', 'list-untouched', w(npd), 'a dependency list / descriptor is handed out mutably: %s' % sorted(set(opaque)))
+    else:
+        rep.check(not touched, 'R2', 'list-untouched', w(npd), 'the dependency lists are only appended to, never reordered / shortened in place',
+                  'the dependency list is modified in place after it was made: %s' % sorted(set(touched + opaque)))
+    # ... and no descriptor on the way has a *part* of a field assigned in place (`d.platform.os = ..` in the first pass is
+    # invisible to the second pass's `..descriptor.clone()` in the value algebra): every in-place assignment is of a whole
+    # field, which the normal form above honours
+    pw = piecewise_updates(N.payload(npd))
+    for gp, ms in N.entered.items():
+        for m in ms:
+            for a in m.values():
+                pw += piecewise_updates(a)
+    for g in build_fns.values():
+        for local in range(len(g.locals)):
+            if DEP_LIST_TY.match(g.local_ty(local) or '') and any(len([x for x in d[4][1:] if str(x) not in ('*', '.*')]) > 1 for d in g.partial_defs(local) if d[0] == 'stmt'):
+                pw.append('%s in %s' % (g.local_name(local) or '_%d' % local, g.path.split('::', 1)[-1]))
+    rep.check(not pw, 'R4', 'whole-fields', w(npd), 'descriptors are only assigned field by field', 'a part of a descriptor field is assigned in place: %s' % sorted(set(pw)))
+    if elems:
+        rep.unproven('R3', 'elements-untouched', w(npd), 'a dependency / URI is modified in place: %s' % sorted(set(elems)))
+    else:
+        rep.holds('R3', 'elements-untouched', w(npd), 'no dependency or URI is modified in place while the lists are rebuilt')
     same = lambda a, b: canon(strip(a)) == canon(strip(b))
     # ---- R1 / R3 : libcnb: replacement (element mapping of pass 1) -------------------------------------------------
     # Case analysis of the mapping applied to one element (C14_helpers.Cases): which results are produced under which
@@ -196,6 +269,7 @@ def run(ctx, rep):
     # ---- R3 / R5 : absolutize (element mapping of pass 2) -------------------------------------------------------------
     seq = seqs[PASSES[1]]
     table = {}
+    abs_args = []   # (path argument, base argument) of every absolutize_path call of the element mapping (R3 exact-args)
     if seq is not None and seq.mapped is not None:
         C2 = Cases(prog, sl, npd, stop=(AP,))
         ecs = C2.call_cases(seq.closure, [seq.elem]) if seq.closure is not None else C2.value_cases(strip(seq.mapped), {})
@@ -211,6 +285,7 @@ def run(ctx, rep):
                 good = ap[0] == 'call' and ap[1] == AP
                 if good:
                     pth, par = strip(ap[2][0]), strip(ap[2][1])
+                    abs_args.append((ap[2][0], ap[2][1]))
                     # the path of this element's URI, against the parent of the source package.toml
                     good = any(x[0] == 'call' and x[1].endswith('::path') and len(x[2]) == 1 and strip(x[2][0])[0] == 'field' and
                                strip(x[2][0])[2] == 'uri' and same(strip(x[2][0])[1], seq.elem) for x in walk(pth)) and \
@@ -223,6 +298,21 @@ def run(ctx, rep):
     rep.extra['absolutize_arms'] = {k: list(v) for k, v in table.items()}
     rep.check(ok, 'R3', 'pass2/scheme-arms', w(npd), 'scheme-less => absolutize(path, parent of package.toml); any scheme => verbatim clone',
               'absolutisation arms: %s' % rep.extra.get('absolutize_arms'))
+    # exact arguments of absolutize_path: the path is this element's URI path and the base is the parent directory of the
+    # source package.toml *itself* (not a directory derived from it: `parent().and_then(Path::parent)`), up to conversions
+    # between string / path representations and the (unobservable) fallback for a path without parent
+    plain = not fmt_not_plain(sl, build_fns.values())
+    base_ok = own_ok = bool(abs_args)
+    for pa, ba in abs_args:
+        b = carried(sl, ba, fmt=plain)
+        base_ok = base_ok and b[0] == 'call' and b[1] == 'std::path::Path::parent' and len(b[2]) == 1 and is_param(carried(sl, b[2][0]), npd, 1)
+        p = carried(sl, pa, fmt=plain)
+        u = carried(sl, p[2][0]) if p[0] == 'call' and len(p[2]) == 1 else ('unknown',)
+        own_ok = own_ok and p[0] == 'call' and p[1].endswith('::path') and u[0] == 'field' and u[2] == 'uri' and same(u[1], seq.elem)
+    rep.check(base_ok, 'R3', 'pass2/base-dir', w(npd), 'relative paths are resolved against parent(<source package.toml>)',
+              'the base directory of the absolutisation is %s' % [vstr(carried(sl, ba))[:120] for pa, ba in abs_args])
+    rep.check(own_ok, 'R3', 'pass2/own-path', w(npd), 'the absolutised path is the whole path of the dependency URI',
+              'the path handed to absolutize_path is %s' % [vstr(carried(sl, pa))[:160] for pa, ba in abs_args])
     ap = prog.fn(UTIL + 'absolutize_path')
     rep.analysed(ap)
     arms = {}
@@ -259,6 +349,69 @@ def run(ctx, rep):
             comp.setdefault(next(iter(cds[-1].outcome)), []).append(e.call.name.split('::')[-1])
     want = {'RootDir': ['push'], 'ParentDir': ['pop'], 'Normal': ['push']}
     rep.check(comp == want, 'R5', 'normalize_path/arms', w(npf), 'RootDir/Normal => push, ParentDir => pop, CurDir => nothing', 'normalize_path component arms: %s' % comp)
+    # ... decided by the kind of the component alone: a push / pop that additionally depends on the state of the result, on
+    # the file system (`if !result.is_symlink() { result.pop(); }`) or on anything else is not the lexical rule of the table
+    extra = []
+    for e in E.expand(npf, 'may'):
+        if e.kind not in ('PATH_PUSH', 'PATH_POP'):
+            continue
+        for cd, views, subj in guards_of(E, e):
+            sv = cd.subject if cd.subject is not None else cd.value
+            if cd.kind == 'variant' and cd.enum == 'std::path::Component':
+                continue
+            if cd.kind == 'variant' and cd.enum == 'std::option::Option' and cd.outcome == frozenset({'Some'}) and \
+                    unwrapped(sv)[0] == 'call' and unwrapped(sv)[1] in (iters.IT + 'next', 'std::iter::Peekable::<I>::next_if', 'std::iter::Peekable::<I>::peek'):
+                continue
+            extra.append('%s also depends on %s' % (e.call.name.split('::')[-1], vstr(sv)[:80]))
+    if extra:
+        rep.unproven('R5', 'normalize_path/by-kind-only', w(npf), '; '.join(sorted(set(extra))))
+    else:
+        rep.holds('R5', 'normalize_path/by-kind-only', w(npf), 'push / pop depend on the kind of the component only')
+    # ... for EVERY component of the given path, in order: the components are visited by a loop that is left only when the
+    # iterator is exhausted (no `break` / early `return`, e.g. "stop when `..` cannot pop any further") or by a closure
+    # handed to a consumer that cannot stop (fold / for_each), and the iterator is `path.components()` itself, at most
+    # wrapped by adapters that neither drop nor reorder elements
+    TOTAL = (iters.IT + 'fold', iters.IT + 'for_each')
+    KEEPS_ALL = {iters.IT + 'peekable', iters.IT + 'by_ref', iters.IT + 'fuse', 'std::iter::IntoIterator::into_iter'}
+    visits, bad, unknown = [], [], []
+    for e in E.expand(npf, 'may'):
+        if e.kind not in ('PATH_PUSH', 'PATH_POP'):
+            continue
+        g = e.call.fn
+        loops = [L for L in find_loops(g, sl) if e.call.bb in L.body and e.call.bb != L.header]
+        coll = None
+        if loops:
+            L = min(loops, key=lambda L: len(L.body))
+            if not loop_total(g, L):
+                bad.append('%s: the loop over the components can be left before the last component' % e.call.name.split('::')[-1])
+                continue
+            coll = E.subst(L.collection, e.mapping) if e.mapping and L.collection is not None else L.collection
+        elif g.kind == 'Closure' and e.chain:
+            lk = e.chain[-1]
+            if lk.call.decl in TOTAL and lk.call.args:
+                coll = sl.operand(lk.call.fn, lk.call.args[0])
+                coll = E.subst(coll, lk.mapping) if lk.mapping else coll
+            else:
+                unknown.append('%s runs in a closure handed to %s' % (e.call.name.split('::')[-1], (lk.call.decl or lk.call.name or '?').split('::')[-1]))
+                continue
+        else:
+            # outside the visit of the components: the start value (a Windows path prefix taken off the front) is not
+            # part of the per-component rule; anything else is not understood
+            pre = [cd for cd, views, subj in guards_of(E, e) if cd.kind == 'variant' and cd.enum == 'std::path::Component']
+            if not (pre and all(cd.outcome == frozenset({'Prefix'}) for cd in pre)):
+                unknown.append('%s outside the visit of the components' % e.call.name.split('::')[-1])
+            continue
+        names, src = adapters(coll) if coll is not None else ([], ('unknown',))
+        srcv = unwrapped(src)
+        if set(names) <= KEEPS_ALL and srcv[0] == 'call' and srcv[1] == 'std::path::Path::components' and len(srcv[2]) == 1 and is_param(carried(sl, srcv[2][0]), npf, 0):
+            visits.append(e.call.name.split('::')[-1])
+        else:
+            bad.append('%s: the components visited are %s' % (e.call.name.split('::')[-1], vstr(coll)[:100] if coll is not None else '?'))
+    if unknown and not bad:
+        rep.unproven('R5', 'normalize_path/every-component', w(npf), '; '.join(sorted(set(unknown))))
+    else:
+        rep.check(not bad and len(visits) >= 2, 'R5', 'normalize_path/every-component', w(npf), 'every component of the given path is visited, in order',
+                  'normalize_path does not handle every component of its argument: %s' % (sorted(set(bad + unknown)) or 'no per-component push/pop found'))
     # ---- R6 ------------------------------------------------------------------------------------------------
     pc = prog.fn('libcnb_package::package::package_composite_buildpack')
     rep.analysed(pc)
@@ -294,3 +447,113 @@ def run(ctx, rep):
     others = [e for e in may_w if not via_writer(e)]
     rep.check(bool(must_w) and not others, 'R6', 'only-writer', w(pc), 'the normalising write is the only writer of <destination>/package.toml and runs on every success path',
               'package.toml can reach the destination without normalisation: %s' % ([('%s via %s' % (e.call.name, e.via())) for e in others] or 'the normalising write is conditional'))
+
+    # ---- R7: the data carriers of libcnb-data ------------------------------------------------------------------------------
+    # Everything above is about *which* path / dependency is put where; the conversions that carry the value are trusted by
+    # it: PackageDescriptorDependency::try_from(path | str) (every replaced and every absolutised dependency goes through
+    # it), the serialiser / deserialiser functions of the `uri` fields (every URI of the written package.toml goes through
+    # the first, every URI "copied verbatim" came in through the second) and the names the platform is written with.
+    # Each of them must hand on the value it is given: in normal form (helpers and closures inlined, conversions between
+    # representations of the same string peeled) the URI is parse(<the argument>) resp. the string written is the URI
+    # itself, and nothing in those functions holds a mutable borrow (an in-place `uri.normalize()`, `s.make_ascii_lowercase()`).
+    PARSE = ('TryFrom::try_from', 'FromStr::from_str', '::parse', 'TryInto::try_into')
+    URI_TYPES = (DATA + 'PackageDescriptorDependency', DATA + 'PackageDescriptorBuildpackReference')
+
+    def parsed_from(v):
+        """x when v is (a representation of) the URI parsed from x"""
+        v = carried(sl, v, fmt=plain7)
+        if v[0] == 'call' and len(v[2]) == 1 and v[1].endswith(PARSE):
+            return carried(sl, v[2][0], fmt=plain7)
+        return None
+
+    def borrows(N2, f):
+        fs = {f.path: f}
+        for gp in N2.entered:
+            fs[gp] = prog.fns[gp]
+        for g in list(fs.values()):
+            rep.analysed(g)
+            for c in prog.closures_of(g):
+                fs[c.path] = c
+        out = []
+        for g in fs.values():
+            for pl, c in mut_borrows(g):
+                out.append('%s in %s' % ((((c.name or c.decl) if c is not None else None) or 'a mutable borrow').rsplit('::', 1)[-1], g.path.rsplit('::', 1)[-1]))
+        return sorted(set(out)), not fmt_not_plain(sl, fs.values())
+
+    def carrier(subject, f, ok, good, bad):
+        """value-level verdict + no in-place modification"""
+        where = '%s:%d' % (f.file, f.line)
+        if not ok:
+            rep.violated('R7', subject, where, bad)
+        elif N2b:
+            rep.unproven('R7', subject, where, 'the value is modified through a mutable borrow: %s' % N2b)
+        else:
+            rep.holds('R7', subject, where, good)
+
+    convs = prog.find(r"^<libcnb_data::package_descriptor::PackageDescriptorDependency as std::convert::TryFrom<.*>>::try_from$")
+    rep.check(len(convs) >= 2, 'R7', 'conversions', 'libcnb-data/src/package_descriptor.rs', 'TryFrom<PathBuf> and TryFrom<&str> for PackageDescriptorDependency found',
+              'conversions into PackageDescriptorDependency found: %s' % [f.path for f in convs])
+    for f in convs:
+        N2 = Normal(prog, sl)
+        pv = strip(N2.payload(f))
+        N2b, plain7 = borrows(N2, f)
+        uv = dict(pv[3]).get('uri') if pv[0] == 'agg' and (pv[1] or '') == URI_TYPES[0] else None
+        src = parsed_from(uv) if uv is not None else None
+        src_ty = f.path.split('TryFrom<', 1)[1].rsplit('>>::', 1)[0]
+        carrier('uri-from/' + src_ty.replace('std::path::', ''), f, src is not None and is_param(src, f, 0),
+                'the dependency URI is the given %s, parsed' % src_ty, 'the URI of the converted dependency is %s' % vstr(carried(sl, uv) if uv is not None else pv)[:200])
+    for t in URI_TYPES:
+        short = t.rsplit('::', 1)[-1]
+        sw = [f for f in prog.find(r"Serialize for %s>::serialize::__SerializeWith.*::serialize$" % re.escape(t))]
+        sfs = {c.name for f in sw for c in f.calls if not c.indirect and c.name in prog.fns and prog.fns[c.name].kind != 'Closure'}
+        dw = [f for f in prog.find(r"Deserialize<'de> for %s>::deserialize::__Visitor.*::visit_map::__DeserializeWith.*::deserialize$" % re.escape(t))]
+        dfs = {c.name for f in dw for c in f.calls if not c.indirect and c.name in prog.fns and prog.fns[c.name].kind != 'Closure'}
+        a = prog.adts.get(t) or {}
+        where = '%s:%s' % (a.get('file', 'libcnb-data/src/package_descriptor.rs'), a.get('line', 0))
+        rep.check(len(sfs) == 1 and len(dfs) == 1, 'R7', 'uri-codec/' + short, where, 'the uri field is written / read by one function each',
+                  '%s.uri is written by %s and read by %s (expected one string codec each)' % (short, sorted(sfs), sorted(dfs)))
+        for fp in sorted(sfs):
+            f = prog.fns[fp]
+            N2 = Normal(prog, sl)
+            rv = unwrapped(N2.nf(sl.local(f, 0)))
+            N2b, plain7 = borrows(N2, f)
+            ok = rv[0] == 'call' and rv[1].endswith(('Serializer::serialize_str', 'Serializer::collect_str')) and len(rv[2]) == 2 and \
+                is_param(carried(sl, rv[2][0]), f, 1) and is_param(carried(sl, rv[2][1], fmt=plain7), f, 0)
+            carrier('uri-written/' + short, f, ok, 'the string written is the URI itself', 'the uri field is written as %s' % vstr(rv)[:200])
+        for fp in sorted(dfs):
+            f = prog.fns[fp]
+            N2 = Normal(prog, sl)
+            pv = N2.payload(f)
+            N2b, plain7 = borrows(N2, f)
+            src = parsed_from(pv)
+            ok = src is not None and src[0] == 'call' and src[1].endswith('::deserialize') and \
+                any(x in src[1] for x in ('for std::string::String>', "for std::borrow::Cow<'", 'for &')) and len(src[2]) == 1 and is_param(carried(sl, src[2][0]), f, 0)
+            carrier('uri-read/' + short, f, ok, 'the URI is the string of the document, parsed', 'the uri field is read as %s' % vstr(carried(sl, pv))[:200])
+    # names: what is written for the platform (and under which keys) is what the package.toml schema says; no key is skipped
+    from .lib import serde_schema as S
+    SPEC = {DATA + 'PackageDescriptor': ['buildpack', 'dependencies', 'platform'], DATA + 'PackageDescriptorBuildpackReference': ['uri'],
+            DATA + 'PackageDescriptorDependency': ['uri'], DATA + 'Platform': ['os']}
+    problems, undecided = [], []
+    for t, want in SPEC.items():
+        se = S.ser_struct(prog, sl, t)
+        if se is None or se['kind'] != 'struct' or se['problems']:
+            undecided.append('%s: %s' % (t.rsplit('::', 1)[-1], 'derived struct Serialize not found' if se is None else (se['problems'] or se['kind'])))
+            continue
+        for fp in se['fns']:
+            rep.analysed(prog.fns[fp])
+        if sorted(se['keys']) != sorted(want):
+            problems.append('%s is written with keys %s' % (t.rsplit('::', 1)[-1], sorted(se['keys'])))
+        for key, k in se['keys'].items():
+            if k.skip_pred and not (key == 'dependencies' and k.skip_pred == 'std::vec::Vec::<T, A>::is_empty'):
+                undecided.append('%s.%s is skipped when %s' % (t.rsplit('::', 1)[-1], key, k.skip_pred))
+    se = S.ser_struct(prog, sl, DATA + 'PlatformOs')
+    got = se['variants'] if se else None
+    if got != {'Linux': 'linux', 'Windows': 'windows'}:
+        problems.append('PlatformOs is written as %s' % got)
+    a = prog.adts.get(DATA + 'PlatformOs') or {}
+    where = '%s:%s' % (a.get('file', 'libcnb-data/src/package_descriptor.rs'), a.get('line', 0))
+    if undecided and not problems:
+        rep.unproven('R7', 'names', where, '; '.join(undecided))
+    else:
+        rep.check(not problems, 'R7', 'names', where, 'keys buildpack / dependencies / platform / uri / os; platform os written as "linux" / "windows"',
+                  'the written package.toml does not use the schema names: %s' % '; '.join(problems + undecided))
